@@ -270,10 +270,8 @@ def lt_cases(r):
     return [seen[k] for k in sorted(seen)]
 
 
-def part_layout(ck):
+def layout_runs(ck):
     quick = ck.tier == "quick"
-    t0 = time.time()
-    rnd = random.Random(ck.seed * 104729 + 35)
     runs = []
     # depth <= 1: every wrapper, every layout parameter
     if quick:
@@ -292,18 +290,34 @@ def part_layout(ck):
                             [False, True], ["raise", "badtag"] + STMT_PROBES)))
         runs.append(("LineTrack depth 3, every nesting",
                      lt_cfg(ALL_WRAPPERS, 3, [1], ["nl"], ["nl"], ["none", "both"], [0], [False, True], ["raise"])))
+    return runs
+
+
+def layout_jobs(ck, runs):
+    quick = ck.tier == "quick"
+    jobs = {}
+    for i, (label, cfg) in enumerate(runs):
+        jobs[f"lt{i}"] = (lambda i=i, cfg=cfg: core.run_tlc(PID, "LineTrack", cfg, name=f"lt{i}",
+                                                            workers=4 if quick else 8,
+                                                            coverage=(i == 0 and quick), timeout=3000))
+    # negative control: without the newlines_stripped term the lexer model misreports lines
+    jobs["ltneg"] = lambda: core.run_tlc(
+        PID, "LineTrack", lt_cfg(["if"], 1, [0], ["nl"], ["nl"], ["lminus"], [0], [False], ["raise"], count=False,
+                                 invs=False), name="ltneg", workers=1)
+    return jobs
+
+
+def part_layout(ck, runs, res):
+    quick = ck.tier == "quick"
+    rnd = random.Random(ck.seed * 104729 + 35)
     cases = []
     for i, (label, cfg) in enumerate(runs):
-        r = core.run_tlc(PID, "LineTrack", cfg, name=f"lt{i}", workers=6 if quick else 12, coverage=(i == 0 and quick),
-                         timeout=3000)
+        r = res[f"lt{i}"]
         ck.add_tlc(r, label)
         if i == 0 and quick:
             ck.require_coverage(r, ["Wrap", "Build", "ScanTag", "NextTemplate", "Finish"])
         cases += lt_cases(r)
-    # negative control: without the newlines_stripped term the lexer model misreports lines
-    rn = core.run_tlc(PID, "LineTrack",
-                      lt_cfg(["if"], 1, [0], ["nl"], ["nl"], ["lminus"], [0], [False], ["raise"], count=False, invs=False),
-                      name="ltneg", workers=2)
+    rn = res["ltneg"]
     ck.tlc_runs.append({"spec": "LineTrack negative control CountStripped=FALSE", "violated": rn.invariant_violated})
     if "C35_TokenLine" not in rn.invariant_violated:
         raise core.MachineryError("negative control CountStripped=FALSE did not violate C35_TokenLine")
@@ -322,7 +336,7 @@ def part_layout(ck):
     ck.evaluations += n
     ck.extra["layout_cases"] = len(cases)
     ck.extra["layout_cases_by_innermost_wrapper"] = per_wrapper
-    ck.extra.setdefault("phase_s", {}).update({"layout_tlc": round(t1 - t0, 1), "layout_replay": round(time.time() - t1, 1)})
+    ck.extra.setdefault("phase_s", {}).update({"layout_replay": round(time.time() - t1, 1)})
     return cases
 
 
@@ -343,19 +357,26 @@ INVARIANT C35_MappingSound
     return s
 
 
-def part_model(ck):
+def model_jobs(ck):
     quick = ck.tier == "quick"
-    t0 = time.time()
-    r = core.run_tlc(PID, "DebugInfo", di_cfg(3, 9 if quick else 12), name="di", workers=4 if quick else 12,
-                     coverage=True, timeout=3000)
+    jobs = {"di": lambda: core.run_tlc(PID, "DebugInfo", di_cfg(3, 9 if quick else 12), name="di",
+                                       workers=3 if quick else 8, coverage=True, timeout=3000)}
+    for key, kw in (("dineg_pair", {"pair": False}), ("dineg_scan", {"back": False})):
+        jobs[key] = (lambda key=key, kw=kw: core.run_tlc(PID, "DebugInfo", di_cfg(3, 7, invs=False, **kw), name=key,
+                                                         workers=1))
+    return jobs
+
+
+def part_model(ck, res):
+    quick = ck.tier == "quick"
+    r = res["di"]
     ck.add_tlc(r, f"DebugInfo: every operation sequence <= {9 if quick else 12}, template lines 1..3 in any order")
     ck.require_coverage(r, ["Newline", "Write"])
-    for label, kw in (("PairAfterAdvance=FALSE", {"pair": False}), ("ScanBackwards=FALSE", {"back": False})):
-        rn = core.run_tlc(PID, "DebugInfo", di_cfg(3, 7, invs=False, **kw), name="dineg", workers=2)
+    for label, key in (("PairAfterAdvance=FALSE", "dineg_pair"), ("ScanBackwards=FALSE", "dineg_scan")):
+        rn = res[key]
         ck.tlc_runs.append({"spec": f"DebugInfo negative control {label}", "violated": rn.invariant_violated})
         if "C35_MappingSound" not in rn.invariant_violated:
             raise core.MachineryError(f"negative control {label} did not violate C35_MappingSound")
-    ck.extra.setdefault("phase_s", {})["debuginfo_model"] = round(time.time() - t0, 1)
 
 
 def record_traces(cases, rnd, limit):
@@ -466,7 +487,7 @@ def load_own_findings(ck):
     them into known_findings.json they are matched from there."""
     f = core.VERIF / "findings.d" / f"{PID}.json"
     if f.exists():
-        have = {k["id"] for k in ck._known}
+        have = {k["id"] for k in core.load_known()}      # merged entries (open or fixed) win
         ck._known += [k for k in json.loads(f.read_text())
                       if k["property"] == PID and k.get("status") == "open" and k["id"] not in have]
 
@@ -474,8 +495,17 @@ def load_own_findings(ck):
 def run(ck):
     core.use_repo()
     load_own_findings(ck)
-    part_model(ck)
-    cases = part_layout(ck)
+    from concurrent.futures import ThreadPoolExecutor
+    runs = layout_runs(ck)
+    jobs = dict(model_jobs(ck), **layout_jobs(ck, runs))
+    t0 = time.time()
+    # the independent TLC runs go side by side
+    with ThreadPoolExecutor(len(jobs)) as ex:
+        futs = {k: ex.submit(fn) for k, fn in jobs.items()}
+        res = {k: f.result() for k, f in futs.items()}
+    ck.extra.setdefault("phase_s", {})["tlc_all"] = round(time.time() - t0, 1)
+    part_model(ck, res)
+    cases = part_layout(ck, runs, res)
     part_traces(ck, cases)
     ck.exhaustive = ck.tier != "quick"
     ck.extra["excluded_shapes"] = [
